@@ -176,6 +176,18 @@ class DriverGen(object):
         L.append("      }")
         L.append("      delete[] buf;")
         L.append("    }")
+        L.append("    if (tok[0] == \"H\") {")
+        L.append("      // H <struct> <hex> [params]: the same bytes through a view over plain `const char` (signed on this platform)")
+        L.append("      int si = std::stoi(tok[1]); std::vector<unsigned char> b = unhex(tok[2]);")
+        L.append("      char *buf = new char[b.size()]; if (!b.empty()) std::memcpy(buf, b.data(), b.size());")
+        L.append("      switch (si) {")
+        for i, st in enumerate(self.top_structs()):
+            args = "".join(self.param_cast(pt, 3 + k) + ", " for k, (pn, pt) in enumerate(st.params))
+            L.append("        case %d: { auto v = %s::Make%sView(%sstatic_cast<const char *>(buf), b.size()); %s(\"v\", v, 0); break; }" % (i, cpp_ns(self.m), st.name, args, self.obs_names[id(st)]))
+        L.append("        default: break;")
+        L.append("      }")
+        L.append("      delete[] buf;")
+        L.append("    }")
         L.append("    if (tok[0] == \"A\") {")
         L.append("      // A <struct> <alignment> <hex> [params]: the same view through MakeAligned...View over aligned storage")
         L.append("      int si = std::stoi(tok[1]); int al = std::stoi(tok[2]); std::vector<unsigned char> b = unhex(tok[3]);")
